@@ -25,6 +25,10 @@ CHECKS = {
  "C12": dict(engine="smduel-resp (+ hostile engines)", cat="exploration", ref="DESIGN.md 6.12",
    technique="deterministic simulation with byzantine chip / link / store feeding the parsers through the real seams; crash, step-bound and allocation monitors",
    text="Boundary-scoped: adversarial bytes reach the parsers only as a chip or stored blob can deliver them (responses through the Transceiver seam, blobs through Verify). Monitors: panic, worker death re-executed alone, deterministic step bounds, bytes allocated per call against a linear budget."),
+ "C08": dict(engine="e2e", cat="exploration", ref="DESIGN.md 6.8",
+   technique="deterministic simulation: whole reader.ReadDocument against seeded chip personalisations and issuer worlds, reference-model oracle of the expected outcome",
+   text="The complete unmodified read pipeline runs against a generated world (SimPKI issuer, personalised SimChip, trust store) stratified over access control x curve x suite, with seeded DG subsets/sizes, chip response policies, terminal maxLe, password routes, AA/CA arrangements and all session randomness. "
+        "Oracle: every returned file byte-identical to the chip's; every supported DG listed and stored has been read; each supported mechanism successful (CA may be skipped after AA/CAM); nothing unsupported reported; PA success iff the chain is in the store; success required only inside the tolerated read-size envelope."),
 }
 
 NOT_APPLICABLE = {
@@ -74,6 +78,7 @@ def main():
         "engines": [
             {"name": "smduel-resp", "path": "sim/engines/smduel.go", "serves_properties": ["C03", "C12"], "kind_free_text": "deterministic simulation: real secure messaging vs reference chip SM with an active adversary on responses"},
             {"name": "smduel-cmd", "path": "sim/engines/smduel.go", "serves_properties": ["C10"], "kind_free_text": "deterministic simulation: command histories unwrapped by the reference chip, SSC lockstep invariant"},
+            {"name": "e2e", "path": "sim/engines/e2e.go", "serves_properties": ["C08"], "kind_free_text": "deterministic simulation: full read against SimChip + SimPKI world"},
             {"name": "readfile", "path": "sim/engines/readfile.go", "serves_properties": ["C13"], "kind_free_text": "deterministic simulation: real ReadFile vs reference chip with response-splitting behaviours"},
         ],
         "checks": checks,
